@@ -1,6 +1,7 @@
 package limsim
 
 import (
+	"errors"
 	"fmt"
 	"math/big"
 	"net/http"
@@ -37,6 +38,7 @@ type tlResult struct {
 	retryIn  time.Duration
 	hasRetry bool
 	retryHdr string
+	ownMarks int // how often the caller's error handler answered (when one is configured)
 }
 
 func (a tlResult) same(b tlResult) bool {
@@ -68,9 +70,13 @@ var perSourceRates map[string][]rateSpec
 
 var slowRateLogger bool
 
+// ownErrHandler: the limiter is built with a caller-supplied error handler
+var ownErrHandler bool
+
 func drawRateSource(rt *rapid.T) {
 	viaExtractor = rapid.Bool().Draw(rt, "rates-via-extractor")
 	slowRateLogger = rapid.IntRange(0, 2).Draw(rt, "slow-logger") == 0
+	ownErrHandler = rapid.IntRange(0, 2).Draw(rt, "own-error-handler") == 0
 }
 
 func newTLim(rt *rapid.T, rates []rateSpec, capacity int) *tlim {
@@ -96,6 +102,20 @@ func newTLim(rt *rapid.T, rates []rateSpec, capacity int) *tlim {
 	}
 	if slowRateLogger {
 		opts = append(opts, ratelimit.Logger(simkit.SlowLogger{}))
+	}
+	if ownErrHandler {
+		// the caller's error handler: same mapping as the default one, so every oracle keeps its meaning, plus
+		// a mark on the response that proves the configured handler (and not the default) answered, once
+		opts = append(opts, ratelimit.ErrorHandler(utils.ErrorHandlerFunc(func(w http.ResponseWriter, req *http.Request, err error) {
+			w.Header().Add("X-Own-Err-Handler", "1")
+			var rerr *ratelimit.MaxRateError
+			if errors.As(err, &rerr) {
+				w.Header().Set("X-Retry-In", rerr.Delay.String())
+				w.WriteHeader(http.StatusTooManyRequests)
+				return
+			}
+			w.WriteHeader(http.StatusInternalServerError)
+		})))
 	}
 	if rateOverride != nil {
 		ro := rateOverride
@@ -148,6 +168,7 @@ func (l *tlim) do(src string, amount int64) tlResult {
 		l.lim.ServeHTTP(rec, req) // inside a task: the scheduler records the panic
 	}
 	res := tlResult{status: rec.Status, handled: rec.H.Get("X-Handled") != ""}
+	res.ownMarks = len(rec.Snapshot.Values("X-Own-Err-Handler"))
 	if v := rec.Snapshot.Get("X-Retry-In"); v != "" {
 		res.retryHdr = v
 		d, err := time.ParseDuration(v)
@@ -167,6 +188,13 @@ const (
 )
 
 func (r tlResult) class() string {
+	want := 0
+	if ownErrHandler && !r.handled {
+		want = 1 // a request that is not passed on is answered by the configured error handler, once
+	}
+	if r.ownMarks != want {
+		return ansBad
+	}
 	switch {
 	case r.status == http.StatusOK && r.handled && !r.hasRetry:
 		return ansAdmit
@@ -185,6 +213,11 @@ func drawRates(rt *rapid.T, inDomain bool, maxAvg int64) []rateSpec {
 	if !inDomain {
 		periods = append(periods, 100*time.Millisecond, 10*time.Millisecond)
 	}
+	// one configuration in six is a large one: quotas per day or month, averages and bursts up to billions
+	large := rapid.IntRange(0, 5).Draw(rt, "large-magnitudes") == 0
+	if large {
+		periods = append(periods, 24*time.Hour, 30*24*time.Hour)
+	}
 	n := rapid.IntRange(1, 3).Draw(rt, "nrates")
 	seen := map[time.Duration]bool{}
 	var out []rateSpec
@@ -195,6 +228,15 @@ func drawRates(rt *rapid.T, inDomain bool, maxAvg int64) []rateSpec {
 		}
 		seen[p] = true
 		avg := int64(rapid.IntRange(1, int(maxAvg)).Draw(rt, "average"))
+		if large {
+			avg = int64(rapid.IntRange(1, 9).Draw(rt, "avg-digit"))
+			for k := rapid.IntRange(3, 9).Draw(rt, "avg-exp"); k > 0; k-- {
+				avg *= 10
+			}
+			if avg > int64(p) { // more than one token per nanosecond: the bucket cannot express it
+				avg = int64(p)
+			}
+		}
 		maxB := 5 * avg
 		if !inDomain {
 			maxB = 50 * avg
